@@ -30,7 +30,7 @@ class Member(object):
 
 
 def make_world(env, rng, kind, lb_params=None, open_delay=None, get_servers_delay=0.0,
-               get_servers_failures=0):
+               get_servers_failures=0, get_servers_dups=0):
   I = _imports()
   AsyncResult, ClientMessageSink = I['AsyncResult'], I['ClientMessageSink']
   MethodReturnMessage, FailedFastError = I['MethodReturnMessage'], I['FailedFastError']
@@ -187,6 +187,10 @@ def make_world(env, rng, kind, lb_params=None, open_delay=None, get_servers_dela
           self.failures_left -= 1
           raise Exception('server set unavailable')
         snap = list(self.truth.values())
+        if get_servers_dups and snap:
+          # a listing that names a member more than once (merged providers, a repeated address)
+          for _ in range(get_servers_dups):
+            snap.insert(rng.randint(0, len(snap)), rng.choice(snap))
         if get_servers_delay:
           gevent.sleep(get_servers_delay * 0.5)
         return snap
